@@ -371,15 +371,34 @@ func runConc(c ConcCase, o *vt.Obs) *vt.Failure {
 		vt.Inconclusive("C10 engine fixture: " + engErr.Error())
 		return nil
 	}
+	return runConcOn(c, o, []*enginefx.Fixture{eng})
+}
+
+var (
+	clOnce sync.Once
+	clFx   []*enginefx.Fixture
+	clErr  error
+)
+
+// runCluster: the same concurrent histories on a REAL 3-node cluster (real raft replication between three engines in one process):
+// client i talks to node i mod 3, so writes acknowledged by one node are read - linearizably or not - through replicas that apply them
+// a little later.
+func runCluster(c ConcCase, o *vt.Obs) *vt.Failure {
+	clOnce.Do(func() { clFx, clErr = enginefx.StartCluster(3, enginefx.Opts{MaxInMemLogSize: 6 * 1024 * 1024}) })
+	if clErr != nil {
+		vt.Inconclusive("C10 cluster fixture: " + clErr.Error())
+		return nil
+	}
+	return runConcOn(c, o, clFx)
+}
+
+func runConcOn(c ConcCase, o *vt.Obs, nodes []*enginefx.Fixture) *vt.Failure {
 	name := fmt.Sprintf("t%d", concNo.Add(1))
-	if _, err := eng.CreateTable(name); err != nil {
+	if _, err := enginefx.ClusterCreateTable(nodes, name, 60*time.Second); err != nil {
 		vt.Inconclusive("C10 create table: " + err.Error())
 		return nil
 	}
-	defer func() {
-		_ = eng.E.DeleteTable(name)
-		_ = eng.E.Manager.VerifReconcile()
-	}()
+	defer enginefx.ClusterDropTable(nodes, name)
 	var clock atomic.Int64
 	var mu sync.Mutex
 	var events []event
@@ -390,6 +409,7 @@ func runConc(c ConcCase, o *vt.Obs) *vt.Failure {
 		wg.Add(1)
 		go func(ci int) {
 			defer wg.Done()
+			eng := nodes[ci%len(nodes)]
 			for oi, kind := range c.Ops[ci] {
 				ctx, cancel := context.WithTimeout(context.Background(), 20*time.Second)
 				ev := event{client: ci, kind: kind, key: keys[(ci+oi)%len(keys)]}
@@ -562,6 +582,9 @@ func runConc(c ConcCase, o *vt.Obs) *vt.Failure {
 			return vt.Failf(prop+sig, 0, "%s by client %d observed %v, which is not the state after any prefix [%d..%d] of the writes in revision order", kind, e.client, e.seen, lo, hi)
 		}
 	}
+	if len(nodes) > 1 {
+		o.Label("real-multi-node-cluster")
+	}
 	o.LabelN("reads-overlapping-writes", overlap)
 	o.NonTrivial = overlap > 0
 	o.Describe = func() string { return fmt.Sprintf("%+v", c) }
@@ -571,5 +594,9 @@ func runConc(c ConcCase, o *vt.Obs) *vt.Failure {
 func TestC10Conc(t *testing.T)        { vt.Check(t, prop, genConc, runConc) }
 func TestC10ConcReplay(t *testing.T)  { vt.Replay(t, prop, runConc) }
 func TestC10ConcRegress(t *testing.T) { vt.Regress(t, prop, "testdata", runConc) }
+
+func TestC10Cluster(t *testing.T)        { vt.Check(t, prop, genConc, runCluster) }
+func TestC10ClusterReplay(t *testing.T)  { vt.Replay(t, prop, runCluster) }
+func TestC10ClusterRegress(t *testing.T) { vt.Regress(t, prop, "testdata", runCluster) }
 
 var _ = bytes.Equal
